@@ -677,16 +677,15 @@ func commentSoup17(r *rand.Rand, maxLines int) string {
 
 func randFeat(r *rand.Rand) feat {
 	b := func(n int) bool { return r.IntN(n) == 0 }
-	return feat{bmp: b(2), nonBMP: b(3), pipe: b(3), code: b(3), quoted: b(3), tags: b(2), crlf: b(5), tabs: b(5), odd: b(4), uspace: b(5)}
+	return feat{bmp: b(2), nonBMP: b(3), pipe: b(3), code: b(3), quoted: b(3), tags: b(2), crlf: b(3), tabs: b(5), odd: b(4), uspace: b(5)}
 }
 
 // genText17: (text, label of the stream it came from).
 func genText17(c *Ctx, maxEntries int) (string, string) {
 	r := c.R
 	switch x := r.IntN(20); {
-	case x < 8: // clean journals: every feature except the one with an open finding (CRLF line ends)
+	case x < 8: // clean journals: every feature (CRLF line ends included: no finding is open)
 		f := randFeat(r)
-		f.crlf = false
 		if r.IntN(3) == 0 {
 			// the shapes of the repaired findings together: codes, quoted commodities, tabs and Unicode
 			// spaces before payees, characters outside the BMP before other tokens, tags after them
